@@ -134,6 +134,36 @@ def dense_pairs():
                 yield base, short
 
 
+def block_pairs():
+    """Third witness family (operands of 33 .. 1100 elements against 1-2 elements): EVERY position of the long operand, and the
+    gaps next to it, is tried as the short operand's value, so that any block skip / leap / unrolled step of up to ~290
+    elements that lands on, before or after an equal element is exercised; pairs at block-sized distances; a 1100-element
+    operand at the positions around every power of two."""
+    for n in (33, 65, 130, 300):
+        for step in (1, 3):
+            base = list(range(1000, 1000 + step * n, step))
+            shorts = [[v] for v in base] + [[base[0] - 1], [base[-1] + 1]]
+            if step > 1:
+                shorts += [[v + 1] for v in base]
+            for i in (0, 1, n // 3):
+                for d in (1, 31, 32, 33, 63, 64, 65, 127, 128, 129, 255, 256, 257):
+                    if i + d < n:
+                        shorts.append([base[i], base[i + d]])
+                        if step > 1:
+                            shorts.append([base[i] + 1, base[i + d]])
+                            shorts.append([base[i], base[i + d] + 1])
+            for s_ in shorts:
+                yield s_, base
+                yield base, s_
+    base = list(range(5000, 5000 + 2 * 1100, 2))
+    pos = sorted({p for k in range(0, 11) for p in (2 ** k - 1, 2 ** k, 2 ** k + 1) if p < 1100} | {0, 999, 1000, 1001, 1098, 1099})
+    for i in pos:
+        for s_ in ([base[i]], [base[i] + 1], [base[0], base[i]], [base[i], base[-1]]):
+            if s_ == sorted(set(s_)):
+                yield s_, base
+                yield base, s_
+
+
 def search(fname, contract, params, variant="prod", scope="increasing", limit=3):
     """Exhaustive small scope (plus the dense family). Returns (n_calls, n_in_requires, [hits])."""
     arrs = increasing_arrays() if scope == "increasing" else any_arrays() + increasing_arrays(maxlen=2)
@@ -150,7 +180,7 @@ def search(fname, contract, params, variant="prod", scope="increasing", limit=3)
     narr = [i for i, k in enumerate(kinds) if k in ("array", "array_or_none")]
     extra = []
     if len(narr) == 2:
-        for a, b in dense_pairs():
+        for a, b in itertools.chain(dense_pairs(), block_pairs()):
             base = [False] * len(kinds)
             base[narr[0]], base[narr[1]] = a, b
             extra.append(tuple(base))
